@@ -4,3 +4,4 @@ import Sparrow.Model.Exchange
 import Sparrow.Model.Collect
 import Sparrow.Model.Vec
 import Sparrow.Model.Bake
+import Sparrow.Model.Source
